@@ -68,6 +68,10 @@ func consumer(parent, pos string) string {
 		}
 		return "arg"
 	case "fn", "list", "count":
+		switch parent {
+		case "dolist", "dotimes":
+			return parent + "-" + pos
+		}
 		return "arg"
 	case "test":
 		return "test"
